@@ -15,7 +15,7 @@ def _abs(x, classes):
             if k in ("name", "arr", "p") and isinstance(v, str):
                 y[k] = classes.get(v, v)
             elif k == "cname":
-                continue
+                y[k] = v            # the C spelling of a local (decl statements print it)
             else:
                 y[k] = _abs(v, classes)
         return y
